@@ -416,7 +416,7 @@ class Parser:
         save = self.p
         try:
             e = self.e_add()
-            if self.at(",") or self.at(")") or self.at(";"):
+            if self.at(",") or self.at(")") or self.at(";") or self.at("?"):
                 return e
         except Refuse:
             pass
@@ -503,6 +503,15 @@ class Parser:
             e = self.e_add()
             self.eat(";")
             return ("return", e)
+        # std::container<...> name;  /  std::...::iterator it;   (no initialiser): skipped
+        if k == "id" and v == "std" and self.at("::", 1):
+            j = self.p
+            while self.t[j][1] not in (";", "=", "(", "{"):
+                j += 1
+            if self.t[j][1] == ";":
+                self.p = j + 1
+                return None
+            raise Refuse("unsupported std:: declaration with initialiser")
         # declaration?   type-words [*&]* name [= init] ;
         if k == "id" and v in TYPEWORDS:
             j = self.p
@@ -550,6 +559,15 @@ class Parser:
                 rhs = self.e_add_or_cond()
             if rhs[0] == "setter":
                 raise Refuse("setter on rhs")
+            if self.at("?") and op == "=":
+                # v = c ? a : b;   is transliterated as   if (c) v = a; else v = b;
+                c = rhs[1] if rhs[0] == "condexpr" else ("nz", rhs)
+                self.eat("?")
+                a = self.e_add()
+                self.eat(":")
+                b = self.e_add()
+                self.eat(";")
+                return ("if", c, ("assign", lhs[1], a), ("assign", lhs[1], b))
             self.eat(";")
             if rhs[0] == "condexpr":
                 raise Refuse("boolean assigned to " + lhs[1])
